@@ -141,7 +141,6 @@ def main(tier, args):
                            "an unterminated telnet sub-negotiation legitimately swallows the bytes that follow, so the probe is preceded by NUL NUL IAC SE CR LF",
                            "an idle real loop (epoll_wait would block) is the point where the harness client takes its next step (interposed epoll_wait)",
                            "mode direct bypasses BufferedFd for the received bytes only (replies still go through the real connection); mode sock uses the unmodified path",
-                           "DEFAULT-OFF (C13_NODE_END_THEN_EXIT=1): 'q' (node that calls Session::endSession) followed by 'exit' in the same segment - on the unchanged tree the deferred exit closure calls "
-                           "Connection::endSession for a session the front end already dropped and Telnetd/TcpRpc::Impl::endSession throws map::at inside the loop (reported as a defect candidate)",
+                           "a node that calls Session::endSession() followed by 'exit' in the same segment is explored (C13_NODE_END_THEN_EXIT=0 turns it off); before the repair in /repo the front ends threw map::at into the loop",
                            "a Terminal-side SessionContext that stays allocated after a node ended the session through the connection is not judged (no crash, not a client-visible effect)",
                            "sessions are de-pooled (ObjectPool keep_number_=0) so that use of a freed session is visible to ASan"])
